@@ -51,12 +51,53 @@ func (v *VC) freshResults(sig *types.Signature, g string) []string {
 	return out
 }
 
+// assumeResultFacts: machine-type facts of values returned by a function abstracted as a UF.
+func (v *VC) assumeResultFacts(sig *types.Signature, res []string, g string) {
+	clk := v.clock(v.curHeap)
+	for k := 0; k < sig.Results().Len() && k < len(res); k++ {
+		t := sig.Results().At(k).Type()
+		v.assume(g, v.rangeFact(t, res[k]))
+		v.assume(g, v.extFact(t, res[k]))
+		v.assume(g, v.validFactC(t, res[k], clk))
+	}
+}
+
 func (v *VC) uf(name string, argSorts []string, resSort string) string {
 	if _, ok := v.ufs[name]; !ok {
 		v.ufs[name] = fmt.Sprintf("(declare-fun %s (%s) %s)", name, strings.Join(argSorts, " "), resSort)
 		v.ufOrder = append(v.ufOrder, name)
 	}
 	return name
+}
+
+// ufRangeAxiom: results of an abstracted function have the range of their machine type (for
+// slices: 0 <= len <= cap), whatever the arguments.
+func (v *VC) ufRangeAxiom(base string, sig *types.Signature, recvSort string) {
+	if sig.Results().Len() != 1 || v.features["rng:"+base] {
+		return
+	}
+	v.features["rng:"+base] = true
+	var decl, args []string
+	n := 0
+	if recvSort != "" {
+		decl = append(decl, fmt.Sprintf("(x%d %s)", n, recvSort))
+		args = append(args, fmt.Sprintf("x%d", n))
+		n++
+	}
+	for k := 0; k < sig.Params().Len(); k++ {
+		decl = append(decl, fmt.Sprintf("(x%d %s)", n, v.sortOf(sig.Params().At(k).Type())))
+		args = append(args, fmt.Sprintf("x%d", n))
+		n++
+	}
+	if len(args) == 0 {
+		return
+	}
+	app := fmt.Sprintf("(%s %s)", base, strings.Join(args, " "))
+	f := v.rangeFact(sig.Results().At(0).Type(), app)
+	if f == "true" {
+		return
+	}
+	v.extraAxioms = append(v.extraAxioms, fmt.Sprintf("(assert (forall (%s) (! %s :pattern (%s))))", strings.Join(decl, " "), f, app))
 }
 
 func (v *VC) useUF(d *UFDecl) { v.uf(d.Name, d.Args, d.Res) }
@@ -341,6 +382,7 @@ func (v *VC) doCall(c *ssa.CallCommon, g string, heap *Heap, pos token.Pos) []st
 			if ct.Pure {
 				v.note("pure interface method (result is a function of receiver and arguments): %s", key)
 				res := v.ufApp("uf_"+sanitize(key), sig, "Iface", append([]string{recv}, args...))
+				v.assumeResultFacts(sig, res, g)
 				v.assumeEnsuresSig(c.Method.Name(), sig, ct, append([]string{recv}, args...), c.Value.Type(), res, g, heap)
 				return res
 			}
@@ -378,6 +420,7 @@ func (v *VC) doCall(c *ssa.CallCommon, g string, heap *Heap, pos token.Pos) []st
 		}
 		if ct.Pure {
 			res := v.ufApp("uf_"+sanitize(key), sig, "", args)
+			v.assumeResultFacts(sig, res, g)
 			v.assumeEnsures(callee, ct, args, res, g, heap)
 			return res
 		}
